@@ -10,6 +10,10 @@ func extraCommand(name string, args []string) bool {
 		cmdHandlers(args)
 	case "upgrade":
 		cmdUpgrade(args)
+	case "migrate":
+		cmdMigrate(args)
+	case "client":
+		cmdClient(args)
 	default:
 		return false
 	}
